@@ -395,7 +395,7 @@ type solveResult struct {
 // other solvers get agreeGrace more to give a second opinion on the same query.
 var thoroughMode bool
 
-const agreeGrace = 3 * time.Second
+const agreeGrace = 1500 * time.Millisecond
 
 var solverSem = make(chan struct{}, 4*runtime.NumCPU()) // safety cap on concurrent solver processes (see oblSem)
 
